@@ -9,36 +9,12 @@
     * a level at which the slice's end-spine node was joined with `to`'s ancestor: that pair was
       checked by the forward step.
 -/
+import PM.UndoGuard
 import Proofs.UndoRel
 import Proofs.UndoInverse
 namespace PM
 
 /-! ### the bridge guard -/
-
-/-- number of nested levels at which the slice content is a single element child that is open on
-    both sides (the node the step merges `from`'s and `to`'s ancestors *through*) -/
-def singleDepth : List Node → Nat → Nat → Nat
-  | [.elem _ _ _ kids], a + 1, b + 1 => 1 + singleDepth kids a b
-  | _, _, _ => 0
-
-/-- `n` levels down from here the ancestor of `f` in `L` and the ancestor of `t` in `R` have
-    join-compatible types -/
-def ancCompat (S : Schema) : Nat → List Node → Nat → List Node → Nat → Bool
-  | 0, _, _, _, _ => true
-  | n + 1, L, f, R, t =>
-    match splitRight L f, splitRight R t with
-    | some (.deep (.elem tyL _ _ kL) iL _), some (.deep (.elem tyR _ _ kR) iR _) =>
-      S.compatibleContent tyL tyR && ancCompat S n kL iL kR iR
-    | _, _ => true
-
-/-- skip `e` levels, then `ancCompat` for `n` levels -/
-def bridgeCompat (S : Schema) : Nat → Nat → List Node → Nat → List Node → Nat → Bool
-  | 0, n, L, f, R, t => ancCompat S n L f R t
-  | e + 1, n, L, f, R, t =>
-    match splitRight L f, splitRight R t with
-    | some (.deep (.elem _ _ _ kL) iL _), some (.deep (.elem _ _ _ kR) iR _) =>
-      bridgeCompat S e n kL iL kR iR
-    | _, _ => true
 
 theorem bridgeCompat_congr (S : Schema) (e n : Nat) {L L2 : List Node} {f f2 : Nat}
     {R R2 : List Node} {t t2 : Nat} (h1 : splitRight L f = splitRight L2 f2)
@@ -747,14 +723,6 @@ theorem replaceKids_rrel (S : Schema) (ty : TypeId) (K K' : List Node) (f t : Na
   obtain ⟨hft, ht, hwf, ho⟩ := replaceKids_ok h
   exact outer_rrel S sl hsn hwf K ty K f t 0 f t _ [] K' rfl rfl (by simp) (by simp) hft ht ho hn hbr ha
 
-/-- **the guard of `replace_undo`**: in `doc`, the ancestor of `f` and the ancestor of `t` have
-    join-compatible types at every depth `d` with `e < d ≤ e + n`, where `e = depth(f) − openStart`
-    (the levels above the slice) and `n = singleDepth` (the levels at which the slice is a single
-    node open on both sides — the levels the step merges *through* a slice node). -/
-def sidesCompatible (S : Schema) (doc : Node) (f t : Nat) (sl : Slice) : Bool :=
-  bridgeCompat S (depthAt doc.kids f - sl.openStart)
-    (singleDepth sl.content sl.openStart sl.openEnd) doc.kids f doc.kids t
-
 theorem singleDepth_closed_left (M : List Node) (b : Nat) : singleDepth M 0 b = 0 := by
   unfold singleDepth; split <;> simp_all
 
@@ -1020,12 +988,6 @@ theorem compat_oob (S : Schema) (x y : TypeId) (hx : S.nodes.size ≤ x) :
     rw [getElem!_neg S.nodes x (by omega)]
     rfl
   simp [Schema.compatibleContent, Dfa.compatible, Dfa.edgesOf, this]
-
-/-- `compatible_content` is transitive on the node types of the schema -/
-def compatTransB (S : Schema) : Bool :=
-  (List.range S.nodes.size).all fun x => (List.range S.nodes.size).all fun y =>
-    (List.range S.nodes.size).all fun z =>
-      !(S.compatibleContent x y && S.compatibleContent y z) || S.compatibleContent x z
 
 theorem compatTrans_of_B (S : Schema) (h : compatTransB S = true) : CompatTrans S := by
   intro x y z hxy hyz
